@@ -139,6 +139,19 @@ def spaces(tier, seed):
                                 pipes.append({"kind": "pipe", "m": m, "w": w, "s": s, "cbca": cbca, "seq": list(seq),
                                               "form": form, "pair": pair, "seed": seed, "lay": lay,
                                               "dmin": -2 + (k % 2), "dmax": 1 + (k % 2)})
+    # strips (2 or 3 rows, 14 columns) whose requested interval lies on one side of 0 and whose left mask holds a run
+    # of invalid pixels much longer than the short side: a fill that invents a value (0, a stale buffer) instead of
+    # taking it from a valid pixel leaves the interval
+    for seq in seqs:
+        if not any(i >= 5 for i in seq):
+            continue  # only sequences with a filling validation
+        for (a, b) in ((2, 4), (-4, -2)):
+            for ny in (2, 3):
+                for pair in ("shift", "indep"):
+                    k += 1
+                    pipes.append({"kind": "pipe", "m": "sad", "w": 1, "s": 1 + (k % 2), "cbca": 0, "seq": list(seq),
+                                  "form": "scalar", "pair": pair, "seed": seed, "lay": "strip", "strip_rows": ny,
+                                  "dmin": a, "dmax": b})
     pipes.sort(key=lambda c: len(c["seq"]))
     refine = [{"kind": "refine", "method": meth, "s": s, "tm": tm}
               for meth in ("vfit", "quadratic") for s in ((1, 2, 4) if thorough else (1, 2)) for tm in ("min", "max")]
@@ -360,8 +373,13 @@ def build_pipe_inputs(case):
 
     w = case["w"]
     ny, nx = w + 3, w + 6
+    strip = case.get("lay") == "strip"
+    if strip:
+        ny, nx = case["strip_rows"], 14
     if case["pair"] == "shift":
-        limg, rimg = D.stereo_pair(ny, nx, shift=1, seed=case["seed"])
+        limg, rimg = D.stereo_pair(ny, nx, shift=3 if strip else 1, seed=case["seed"])
+        if strip and case["dmin"] < 0:
+            limg, rimg = rimg, limg  # the scene's disparity changes sign with the roles
         limg, rimg = limg % 100, np.abs(rimg) % 100
     else:
         limg = D.generic_image(ny, nx, 0, case["seed"], 0, M.HI)
@@ -371,7 +389,10 @@ def build_pipe_inputs(case):
     rmsk = np.zeros((ny, nx), dtype=np.int16)
     # a ring of invalid left pixels around one valid pixel (a filter that lets invalid neighbours vote would move
     # that pixel to the invalid disparity) and one right nodata pixel
-    if case.get("lay", "ring") == "ring":
+    if strip:
+        lmsk[:, 4:11] = 2  # seven invalid columns: more than the short side in every row
+        lmsk[0, 7] = 0
+    elif case.get("lay", "ring") == "ring":
         r0, c0 = ny // 2, nx // 2 - 1
         lmsk[r0 - 1:r0 + 2, c0 - 1:c0 + 2] = 2
         lmsk[r0, c0] = 0
